@@ -16,13 +16,21 @@ CLAIM = {
             'distinct (arrays of any shape); indexes >= M give ValueError; BPSK sign test = nearest point; every '
             'PSK table (M=2^m, any offset) has M distinct unit-modulus points and every square QAM table (L=2^k) has '
             'M distinct points with unit mean energy; non powers of two make PSK table construction raise '
-            'independently of the float assert. The model is tied to fundamental.py by exact comparison of detected '
-            'indexes on dyadic-rational samples (incl. boundary samples with margins down to 1e-9), of emitted tables '
-            '(1e-12) and of constructor acceptance for every M <= 5000.',
+            'independently of the float assert. The model is a function of the exact values (a strictly nearest '
+            'point wins by however little; a new table of any closeness to the old one takes effect; two offsets '
+            'less than a turn apart give different PSK tables; no dead zone in the BPSK sign test) and, for objects '
+            'whose table they made themselves, of the CONTENTS of the caller\'s arrays at call time only (model of '
+            'the object together with the caller\'s refillable arrays; results equal a fresh object\'s, earlier '
+            'results never change). The model is tied to fundamental.py by exact comparison of detected '
+            'indexes on dyadic-rational samples (incl. boundary samples with margins down to 1e-9, close-but-distinct '
+            'pairs down to 1e-11 apart, samples of magnitude 2^-37, relative margin 2^-38 computed by the model), of '
+            'emitted tables (1e-12; close offsets 8 ulp of the phase against first principles), of constructor '
+            'acceptance for every M <= 5000, and of histories on one object with one refilled array per role.',
     'note': 'Trusted: Lean kernel, std axioms, translator for the Gray maps, correspondence harness. Outside the '
-            'theorems: binary64 rounding within 1e-9 of a decision boundary, the 1e-15 snap in PSK, the float '
-            'log-based cardinality guards (tied exhaustively for M <= 5000 / 20000, not proved), numpy negative-index '
-            'wrap-around.',
+            'theorems: binary64 rounding within 2^-38 (relative, squared distances) of a decision boundary, the 1e-15 '
+            'snap in PSK, the float log-based cardinality guards (tied exhaustively for M <= 5000 / 20000, not proved), '
+            'numpy negative-index wrap-around. Known finding: Modulator.setConstellation keeps the caller\'s array '
+            '(modelled as it is, negative witness setConstellation_keeps_callers_array; BPSK/QPSK/PSK/QAM unaffected).',
 }
 
 
@@ -458,6 +466,14 @@ ORACLES = {'forms': o_forms, 'long': o_long, 'layout': o_layout, 'empty': o_empt
            'constructor': o_reject, 'modulate.oob': o_oob}
 
 
+def _robust():
+    """R15 / R16 live in harness/props/c01_robust.py; its oracles are registered here on first use"""
+    from harness.props import c01_robust
+    for k_, v_ in c01_robust.ORACLES.items():
+        ORACLES.setdefault(k_, v_)
+    return c01_robust
+
+
 def run_oracle(ctx, call, case, key=None):
     ctx.count((call, key if key is not None else repr(case)))
     try:
@@ -472,6 +488,7 @@ def run_oracle(ctx, call, case, key=None):
 
 
 def replay(ctx, rep):
+    _robust()
     return ORACLES[rep['call']](rep['case']) is not None
 
 
@@ -666,21 +683,31 @@ def check(ctx):
     ctx.rule = ('modulators BPSK, QPSK, PSK 2..2^k (offset 0 and a seeded offset), QAM 4..4^k; index arrays of '
                 'seeded shapes 0-d..4-d; samples on a 2^-40 grid near points / uniform / straddling nearest-'
                 'neighbour bisectors with margins 1e-1..1e-8 (ties with exact gap < 1e-9 skipped); every '
-                'M <= N for constructor acceptance; non-trivial = distinct (call, modulator, M, region/shape, k)')
+                'M <= N for constructor acceptance; R15: pairs of samples 2e-6..6e-12 (relative to the point spacing) apart '
+                'on the two sides of a bisector, samples of magnitude 2^-30..2^-37 and their negatives, far samples '
+                '(1e3, 1e5, 2.4e9) 1e-6 apart relatively, adjacent doubles, offsets differing by 1e-9 / 1e-12 / one ulp / '
+                '1e-6 relatively, cardinalities 2^k+-1 up to 2^20 (decisions with exact relative gap < 2^-38 skipped); '
+                'R16: histories of 2-4 calls on one object with ONE array per role refilled in place and overwritten '
+                'after the call, the library\'s own arrays handed back to it; '
+                'non-trivial = distinct (call, modulator, M, region/shape/class, k)')
     accept_max = 5000 if quick else 20000
     psk_max, qam_max = (1 << 10, 4 ** 5) if quick else (1 << 10, 4 ** 6)
     nsamp = 24 if quick else 200
     core.prove(ctx, MODULE, generated=['Conversion', 'C01Formulas'], drivers=[DRIVER], scratch=ctx.scratch)
+    rob = _robust()
     ctx.required_branches = ['detection:after-setPhaseOffset', 'detection:boundary', 'detection:near', 'detection:uniform', 'accept:true',
-                             'accept:false', 'modulate:error:ValueError', 'modulate:ok']
+                             'accept:false', 'modulate:error:ValueError', 'modulate:ok'] + rob.REQUIRED_CORR
     try:
         correspondence(ctx, accept_max, psk_max, qam_max, nsamp)
+        rob.correspondence(ctx)
     except core.Infra as e:
         if not ctx.broken:
             raise
         ctx.notes.append('correspondence skipped: %s' % e)
         ctx.required_branches = []
+    ctx.required_branches = ctx.required_branches + rob.REQUIRED
     oracles(ctx, psk_max, qam_max, nsamp, 600 if quick else 5000)
+    rob.oracles(ctx)
     ctx.exhaustive = False
     ctx.sample({'call': 'demodulate', 'kind': 'QAM', 'M': 16, 'z': [0.6324555320336759 - 1e-6, 0.1]})
     ctx.sample({'call': 'constructor.PSK', 'M': 24, 'expected': 'rejected'})
@@ -688,6 +715,7 @@ def check(ctx):
 
 
 def search(ctx):
+    _robust().search(ctx)
     nsamp = 400
     for kind, M, phase in mods_for(ctx, 1 << 8, 4 ** 4):
         m = make_mod(kind, M, phase)
